@@ -344,3 +344,96 @@ func VH_c15_community_set() {
 	c15same(w1, w2, false)
 	vReach("end")
 }
+
+// C15 (ordering against live route changes): peer.routeRefreshInProgress orders a full
+// re-advertisement (ROUTE-REFRESH, soft reset out) against the incremental fan-out of a route change
+// towards the same peer. The harness plays one side - it holds the lock exactly as that side does -
+// and runs the real other side as a goroutine: nothing may reach the peer's queue until the side in
+// flight has finished, and afterwards the peer has been told exactly the current Loc-RIB content
+// (no stale attributes, no resurrected route). In the engine sync.RWMutex blocks the cooperative
+// thread; natively the goroutines really run (vSettle waits 150 ms).
+func VH_c15_reset_ordering() {
+	fams := []bgp.Family{bgp.RF_IPv4_UC}
+	s := vServer(65000, fams)
+	b := vEstablished(s, vNeighbor(2, 65001, 65000, fams), fams)
+	a := vEstablished(s, vNeighbor(4, 65003, 65000, fams), fams)
+	a.fsm.capMap[bgp.BGP_CAP_ROUTE_REFRESH] = []bgp.ParameterCapabilityInterface{bgp.NewCapRouteRefresh()}
+	view := map[string]*table.Path{}
+	eor := 0
+	drain := func() {
+		for a.fsm.outgoingCh.Len() > 0 {
+			m := (<-a.fsm.outgoingCh.Out()).(*fsmOutgoingMsg)
+			for _, p := range m.Paths {
+				switch {
+				case p.IsEOR():
+					eor++
+				case p.IsWithdraw:
+					delete(view, p.GetPrefix())
+				default:
+					view[p.GetPrefix()] = p
+				}
+			}
+		}
+		for b.fsm.outgoingCh.Len() > 0 {
+			<-b.fsm.outgoingCh.Out()
+		}
+	}
+	r1 := vPrefix4(10, 1, 0, 0, 16)
+	vRecv(s, b, vUpdate4(r1, false, []uint32{65001, 65010}, vAddr4(10, 0, 0, 2)), 10)
+	drain()
+	vAssert(len(view) == 1, "the route was not advertised")
+	done := make(chan struct{})
+	kind := vChoice("reset_kind", 2)
+	reset := func() {
+		if kind == 0 {
+			vRecv(s, a, bgp.NewBGPRouteRefreshMessage(bgp.AFI_IP, 0, bgp.SAFI_UNICAST), 100)
+		} else {
+			_ = s.softResetOut("10.0.0.4", bgp.RF_IPv4_UC, false)
+		}
+	}
+	change := func() {
+		if vBool("change_is_withdraw") {
+			vRecv(s, b, vUpdate4(r1, true, nil, vAddr4(10, 0, 0, 2)), 101)
+		} else {
+			vRecv(s, b, vUpdate4(r1, false, []uint32{65001, 65011, 65012}, vAddr4(10, 0, 0, 2)), 101)
+		}
+	}
+	finished := func() bool {
+		select {
+		case <-done:
+			return true
+		default:
+			return false
+		}
+	}
+	if vBool("fan_out_in_flight") {
+		// a route change is being fanned out to A (propagateUpdateToNeighbors holds the lock in read mode)
+		a.routeRefreshInProgress.RLock()
+		go func() { reset(); close(done) }()
+		vSettle()
+		vAssert(!finished() && a.fsm.outgoingCh.Len() == 0, "a full re-advertisement ran while an incremental fan-out to the same peer was in flight: its snapshot can overtake the newer change")
+		a.routeRefreshInProgress.RUnlock()
+		vSettle()
+		vAssert(finished(), "the re-advertisement never ran")
+		drain()
+		vReach("reset_waited")
+	} else {
+		// a full re-advertisement to A is in flight (getBestFromLocalCallback holds the lock in write mode)
+		a.routeRefreshInProgress.Lock()
+		go func() { change(); close(done) }()
+		vSettle()
+		vAssert(!finished() && a.fsm.outgoingCh.Len() == 0, "a route change was fanned out to a peer in the middle of a full re-advertisement to it")
+		a.routeRefreshInProgress.Unlock()
+		vSettle()
+		vAssert(finished(), "the route change was never processed")
+		drain()
+		vReach("change_waited")
+	}
+	// quiescence: A has been told exactly the Loc-RIB content
+	loc := s.globalRib.GetBestPathList(table.GLOBAL_RIB_NAME, 0, fams)
+	vAssert(len(view) == len(loc), "after the reset and the concurrent change the peer holds a route that left the Loc-RIB, or misses one")
+	for _, p := range loc {
+		q, ok := view[p.GetPrefix()]
+		vAssert(ok && len(q.GetAsList()) == len(p.GetAsList())+1, "after the reset and the concurrent change the peer holds stale attributes")
+	}
+}
